@@ -8,18 +8,18 @@ T = {
  "C04": ("every operation history up to a depth over inserts with/without TTL, insert_if_present, remove, clear and clock advances, quiescence after every operation, compared step by step with a reference map (nothing lost, refused, evicted or swept early); cost-changing updates on a nearly full cache, zero-charge entries, unsettled histories around clear()", "§6.4"),
  "C05": ("every operation history up to a depth containing TTL inserts, for several cleanup intervals (incl. the default) and clock phases, followed by idle time; physically reclaimed, un-charged and handed to on_evict exactly once by deadline + 1 s + interval, never before the deadline; entries dead on arrival (TTL runs out before the processor applies the insert), negative / zero charges, a client racing the due sweep, lookup guards held across the sweep", "§6.5"),
  "C06": ("two-client programs and unsettled histories at capacity 2 under all schedules up to a preemption bound: resident set == charged set and len() == their number at every quiescent point", "§6.6"),
- "C07": ("exhaustive enumeration of resident sets x cost vectors x popularity vectors x max_cost x incoming (cost, hits) on the real LFUPolicy::add with every sampling round observed; plus, on the real cache, every history up to a depth over warm pre-states with skewed popularity: every sampling round the policy ran must be carried out (victims leave through on_evict, nothing else is evicted, store and policy agree)", "§6.7"),
+ "C07": ("exhaustive enumeration of resident sets x cost vectors x popularity vectors x max_cost x incoming (cost, hits) on the real LFUPolicy::add with every sampling round observed; plus, on the real cache, every history up to a depth over warm pre-states with skewed popularity: every sampling round the policy ran must be carried out (victims leave through on_evict, nothing else is evicted, store and policy agree); zero / negative resident charges; two admissions in a row with residents leaving and arriving in between", "§6.7"),
  "C08": ("value-conservation ledger (unique value ids, recording callback) over every unsettled history up to a depth and two-client programs at capacity 2 under all schedules up to a preemption bound", "§6.8"),
  "C09": ("3 validators x every settled history up to a depth compared with a reference map and snapshot identity across vetoes; unsettled histories of insert_if_present racing buffered work (also work that evicts the key first) at preemption bound 1; conditional writes on a key that is dead but not yet swept, and on an absent key whose index hash is shared with such an entry", "§6.9"),
- "C10": ("client histories followed by wait() and immediate lookups / facade snapshot, racing clear/close/other waiters, insert buffer sizes 1/2/8, all schedules up to a preemption bound; a wait() that never returns is a blocked-forever task (deadlock report); TTL inserts (Duration::MAX, dead unswept keys) and the client's own clear() before the barrier", "§6.10"),
+ "C10": ("client histories followed by wait() and immediate lookups / facade snapshot, racing clear/close/other waiters, insert buffer sizes 1/2/8, all schedules up to a preemption bound; a wait() that never returns is a blocked-forever task (deadlock report); TTL inserts (Duration::MAX, dead unswept keys) and the client's own clear() before the barrier, TTL filing racing clear(), a lookup guard held into max_cost() while the sweep is due", "§6.10"),
  "C11": ("prefix . clear . suffix histories (keys re-used with other TTLs, idle time, metrics on/off) not settled around the clear at preemption bound 1-2, settled variants under the exact-map oracle, two-client programs at bound 2, one history per metrics stripe, and a differential: [prefix; clear] + suffix against the same suffix on a never-used cache (sets of observable outcomes must coincide); clear() on residents charged nothing in total; no popularity survives the clear (estimates of key hashes 1, 2^63, u64::MAX)", "§6.11"),
- "C12": ("close races (2-3 closers, close vs insert/remove/clear/lookups, buffered work) followed by every call on the closed cache, and drop-without-close programs, all schedules up to a preemption bound, on both flavours (close() is written separately for each); workers must have terminated", "§6.12"),
- "C13": ("every increment/reset/clear sequence up to a length over collision-forcing key alphabets for every counter width in range on the real CountMinRow / CountMinSketch / TinyLFU against exact reference counts; batched recording (TinyLFU::increments) compared with one-by-one recording for every sequence, 10 batch sizes and every width; plus, on the real cache, every settled history up to a depth through clear(): no key estimates more than the lookups issued since", "§6.13"),
+ "C12": ("close races (2-3 closers, close vs insert/remove/clear/lookups, buffered work) followed by every call on the closed cache, lookups flushing batches to the policy worker while another client closes, and drop-without-close programs, all schedules up to a preemption bound, on both flavours (close() is written separately for each); workers must have terminated", "§6.12"),
+ "C13": ("every increment/reset/clear sequence up to a length over collision-forcing key alphabets for every counter width in range on the real CountMinRow / CountMinSketch / TinyLFU against exact reference counts; batched recording (TinyLFU::increments) compared with one-by-one recording for every sequence, 10 batch sizes and every width; hot-key workloads (a key recorded far beyond the counter limit within one window); plus, on the real cache, every settled history up to a depth through clear(): no key estimates more than the lookups issued since", "§6.13"),
  "C14": ("(capacity, rate 1e-9 .. 0.99 = 30 .. 1 probes) grid x structured hash families on the real Bloom filter: no false negative after every add for every prefix, emptiness after reset/clear, false-positive count over a fixed probe enumeration and over structured neighbours (hashes differing from an added one only in a few low bits or only in the two top bits)", "§6.14"),
  "C15": ("every lookup sequence up to a length for buffer_items 0..3 with the policy worker as a scheduled task (prompt and lagging), bursts overflowing the 3-batch queue, two clients sharing the ring; accounting kept + dropped == flushed, estimates reflect kept lookups; clear() between the lookups; both flavours (the ring is written separately for each)", "§6.15"),
  "C16": ("costers x ignore_internal_cost x max_cost x every history of inserts / insert_if_present of one key with explicit costs 0/1/5/1000, quiescence between writes: charge == given cost or coster value + internal overhead, callback cost == charged cost, also for evictions and rejections among entries of different costs and for TTL entries charged zero or less reclaimed by the sweep; 5 value types; both flavours", "§6.16"),
  "C17": ("metrics on: every settled history up to a depth with the conservation laws evaluated at every quiescent point, tiny insert buffers (sets_dropped), two-client programs (incl. a racing clear) with the metric stripes as scheduling points, one history per metrics stripe, zero and negative charges (modular cost counters)", "§6.17"),
- "C18": ("all values of the small integer types and boundary sets of the wide ones through TransparentKeyBuilder, String/&str through DefaultKeyBuilder; every settled history up to a depth on a cache whose key builder forces index collisions, against a slot model that tracks deadlines (expired, unswept owners), also with a slot owner that carries the conflict hash 0", "§6.18"),
+ "C18": ("all values of the small integer types and boundary sets of the wide ones through TransparentKeyBuilder, String/&str through DefaultKeyBuilder, one DefaultKeyBuilder shared by two threads from its first use under every schedule at preemption bound 2; every settled history up to a depth on a cache whose key builder forces index collisions, against a slot model that tracks deadlines (expired, unswept owners), also with a slot owner that carries the conflict hash 0", "§6.18"),
  "C19": ("the harness corpora of C01-C17 driven through AsyncCache with its processors as scheduler tasks (every polling order and ready-arm choice of select up to the same bounds), plus a differential run of settled corpora on Cache and AsyncCache comparing the sets of observable outcomes", "§6.19"),
  "C20": ("full product of builder parameters (num_counters 1..70, max_cost incl. negative, buffer_size 1/2/8, buffer_items 0/1/2/64, metrics, ignore_internal_cost, cleanup intervals from 1 ns to 2 s) x one fixed 30-operation workload under every scheduling/select choice at bound 0; zero parameters rejected with the matching error; three orders of the builder calls; both flavours", "§6.20"),
 }
